@@ -1,9 +1,56 @@
 import OdcGeo.Model.C10
+import OdcGeo.Drv.C03
 namespace OdcGeo.C10.Drv
-open OdcGeo OdcGeo.IO
+open OdcGeo OdcGeo.IO OdcGeo.C17 OdcGeo.C03 OdcGeo.C10
+
+/-- rows separated by `|`, values by `,` : `1,2|3,4` -/
+def parseImg? (s : String) : Option (List (List Int)) :=
+  (s.splitOn "|").mapM fun row => if row = "" then some [] else (row.splitOn ",").mapM parseInt?
+
+def fmtImg (img : List (List Int)) : String :=
+  "|".intercalate (img.map fun row => ",".intercalate (row.map toString))
+
+def parseNS? (s : String) : Option NSlice :=
+  match s.splitOn ":" with
+  | [a, b] => do let a ← parseInt? a; let b ← parseInt? b; pure ⟨a, b⟩
+  | _ => none
 
 def run (args : List String) : Option String :=
   match args with
+  | ["almostint", x, tol] => do
+    let x ← parseRat? x; let tol ← parseRat? tol
+    pure (fmtBool (isAlmostInt x tol))
+  | ["maybeint", x, tol] => do
+    let x ← parseRat? x; let tol ← parseRat? tol
+    pure (fmtRat (maybeInt x tol))
+  | ["split", x] => do
+    let x ← parseRat? x
+    let r := splitFloat x
+    pure s!"{fmtRat r.1} {fmtRat r.2}"
+  | ["snapscale", x, tol] => do
+    let x ← parseRat? x; let tol ← parseRat? tol
+    pure (fmtRat (snapScale x tol))
+  | ["isst", a] => do
+    let a ← parseAff? a
+    pure (fmtBool (isAffineST a))
+  | ["snap", a, ttol, stol] => do
+    let a ← parseAff? a; let ttol ← parseRat? ttol; let stol ← parseRat? stol
+    pure (fmtAff (snapAffine a ttol stol))
+  | ["canpaste", a, stol, ttol] => do
+    let a ← parseAff? a; let stol ← parseRat? stol; let ttol ← parseRat? ttol
+    match C03.Drv.rootOf a with
+    | none => pure "irr"
+    | some n => pure (fmtRes fmtBool (canPaste a n stol ttol))
+  | ["nnwarp", sny, snx, dny, dnx, a, nodata, img] => do
+    let sny ← parseInt? sny; let snx ← parseInt? snx; let dny ← parseInt? dny; let dnx ← parseInt? dnx
+    let a ← parseAff? a; let nodata ← parseInt? nodata; let img ← parseImg? img
+    pure (fmtImg (Warp.nnWarpList img (sny, snx) (dny, dnx) a nodata))
+  | ["paste", dny, dnx, fy, fx, ys, xs, yd, xd, nodata, img] => do
+    let dny ← parseInt? dny; let dnx ← parseInt? dnx
+    let fy ← parseBool? fy; let fx ← parseBool? fx
+    let ys ← parseNS? ys; let xs ← parseNS? xs; let yd ← parseNS? yd; let xd ← parseNS? xd
+    let nodata ← parseInt? nodata; let img ← parseImg? img
+    pure (fmtImg (pastedList img (dny, dnx) fy fx (ys, xs) (yd, xd) nodata))
   | _ => none
 
 end OdcGeo.C10.Drv
